@@ -2,8 +2,19 @@ from sessproj import make, is_store, is_wire
 
 _sess = make(lambda i: is_store(i, "save", "incS", "setS", "reset") or is_wire(i), ["ctrS"])
 
+_C02_STORE_OPS = ("open", "setS", "setT", "incS", "incT", "save", "saveIncr", "get", "iter", "refresh", "reset", "reopen", "sqlinter")
+
+def _c02_relevant(op):
+    # family store: C02 takes the SQL store's interleavings only (`sqlinter`: the event loop's target-side update against a sending
+    # goroutine's save-and-increment, at statement granularity): the next outbound number a fresh store reads back must be the one
+    # the live store handed out.  Everything else of that family belongs to C16.
+    k = op.split(" ")[0]
+    return k == "sqlinter" or k not in _C02_STORE_OPS
+
 def _proj(op, line):
     w = op.split()
+    if w and w[0] == "sqlinter":
+        return line
     if w and w[0] == "round":
         # stress round (family conc): the model predicts the final store from the parameters alone (numbers are
         # consecutive whatever the schedule); the event list itself is judged by the monitor, not compared.
@@ -19,8 +30,10 @@ def _proj(op, line):
     return _sess(op, line)
 
 PROPS["C02"] = {
-    "families": {"sess": {"quick": 250, "thorough": 6000}, "conc": {"quick": 300, "thorough": 2500}},
-    "mon_clauses": ["C02.", "C09.panic"],
+    "families": {"sess": {"quick": 250, "thorough": 6000}, "conc": {"quick": 300, "thorough": 2500},
+                 "store": {"quick": 150, "thorough": 1500}},
+    "mon_clauses": ["C02.", "C09.panic", "counters_differ"],
+    "relevant": _c02_relevant,
     "project": _proj,
     "claim": ('THEOREMS (Lean kernel, no sorry): (A) C02_all_schedules - in the lock-level model Qfx.Conc (thread 0 = session goroutine running any list of '
               'sendInReplyTo / dropAndSendInReplyTo / SendAppMessages / dropAndReset / EnqueueBytesAndSend / resendMessages calls with any flush outcomes, any number of '
